@@ -1,6 +1,6 @@
 (* Props_C09.v — C09: one record per address; identities only move forward;
    own address never active; payload of superseded / Down senders discarded. *)
-From Foca Require Import Laws MembersM FocaM L_Members L_MembersInv L_Join L_Forward L_Reject L_Discard Inv Reach.
+From Foca Require Import Laws MembersM FocaM L_Members L_MembersInv L_Join L_Forward L_Reject L_Discard Inv Reach L_Told.
 
 Section C09.
 Context {Id Addr : Type} {IO : IdOps Id Addr} {CO : CodecOps Id} {HO : HandlerOps Id}.
@@ -62,8 +62,33 @@ Proof.
                     (inactive_sender_discards rnd h ul tail s s1 I J)).
 Qed.
 
+(* never more records than addresses told about: every address with a record after a call had one
+   before the call or is named by the call's input - the sender of the datagram, a member update in
+   its (fully decodable) member section, an update passed to apply_many; timers and every other API
+   call add none.  With one record per address (C09_reachable_invariant) the number of records is
+   at most the number of distinct addresses told. *)
+Theorem C09_only_told_addresses (rnd : oracle) (f : @foca Id Addr HO) (i : @input Id) (a : Addr) :
+  In a (map (fun m => addr_of (m_id m)) (inner (mems (fst (fst (fst (step rnd f i))))))) ->
+  In a (map (fun m => addr_of (m_id m)) (inner (mems f)))
+  \/ match i with
+     | IData b =>
+         exists h rest, dec_hdr b = Some (h, rest)
+           /\ (a = addr_of (h_src h)
+               \/ exists n r ul tail, get_u16 rest = Some (n, r) /\ dec_members (N.to_nat n) r = Some (ul, tail)
+                                      /\ In a (map (fun m => addr_of (m_id m)) ul))
+     | IApplyMany l _ => In a (map (fun m => addr_of (m_id m)) l)
+     | _ => False
+     end.
+Proof. exact (step_told rnd f i a). Qed.
+
+Theorem C09_history_only_told (id0 : Id) (c0 : config) (h0 : hstate) (f : @foca Id Addr HO) (T : Addr -> Prop) :
+  thist id0 c0 h0 f T -> forall a, In a (map (fun m => addr_of (m_id m)) (inner (mems f))) -> T a.
+Proof. exact (thist_told id0 c0 h0 f T). Qed.
+
 End C09.
 
+Print Assumptions C09_only_told_addresses.
+Print Assumptions C09_history_only_told.
 Print Assumptions C09_reachable_invariant.
 Print Assumptions C09_identity_forward.
 Print Assumptions C09_no_fallback.
